@@ -354,13 +354,26 @@ func rulesC18(c *Ctx) {
 			milli := p.Holds(st, func(a Atom) bool {
 				// !(suffix == "m" && !milli)
 				b, ok := unparen(a.E).(*ast.BinaryExpr)
-				return ok && !a.Val && b.Op == token.LAND && strings.Contains(p.Src(b), `suffix == "m"`) && strings.Contains(p.Src(b), "!milli")
+				if !ok || a.Val || b.Op != token.LAND {
+					return false
+				}
+				// !(<unit> == "m" && !<milli parameter>)
+				hasM, hasNotMilli := false, false
+				for _, side := range []ast.Expr{b.X, b.Y} {
+					if cmp, isC := unparen(side).(*ast.BinaryExpr); isC && cmp.Op == token.EQL && (p.Src(cmp.Y) == `"m"` || p.Src(cmp.X) == `"m"`) {
+						hasM = true
+					}
+					if un, isU := unparen(side).(*ast.UnaryExpr); isU && un.Op == token.NOT && p.isParam(fn, un.X, 1) {
+						hasNotMilli = true
+					}
+				}
+				return hasM && hasNotMilli
 			})
 			c.Check("C18.f", "milli suffix only in milli mode", rs, milli, "parse accepts the 'm' suffix outside ParseVCore; facts: %v", p.FactStrings(st))
 			// the returned value is the Int64() of the checked big integer
 			d := p.DefOf(T(rs.Results[0], st))
 			src := p.Src(d.E)
-			okV := strings.Contains(src, "Int64()") || strings.Contains(p.Src(rs.Results[0]), "result")
+			okV := strings.Contains(src, "Int64()") || strings.Contains(p.CanonSrc(rs.Results[0], st.Env, 0), "Int64()")
 			c.Check("C18.f", "returned value is the checked big integer", rs, okV, "parse returns %s", src)
 		}
 		c.Floor("C18.f", "successful returns of parse", n, 1)
@@ -371,7 +384,9 @@ func rulesC18(c *Ctx) {
 			st := p.StateAt(fn, call)
 			if strings.Contains(p.Src(call), "1000") {
 				ok := p.Holds(st, p.BoolAtom(true, func(t Term) bool { return p.isParam(fn, t.E, 1) })) && p.Holds(st, p.CmpAtom(func(op tokenT, x, y Term) bool {
-					return op == tokNEQ && p.Src(x.E) == "suffix" && p.Src(y.E) == `"m"`
+					// the unit suffix (whatever the local is called) compared with "m"
+					_, isID := unparen(x.E).(*ast.Ident)
+					return op == tokNEQ && isID && p.Src(y.E) == `"m"`
 				}))
 				c.Check("C18.f", "x1000 only for unit-less values in milli mode", call, ok, "the milli scaling is applied without (milli && suffix != \"m\")")
 			}
